@@ -49,6 +49,10 @@ def expand(item, seed):
     if k == "seqs":
         kinds = [x for x in KINDS if x != "server_close" and not (item["disp"] == "rel" and x == "ping_timeout")]
         seqs = [[]] + [[a] for a in kinds] + [[a, b] for a in kinds for b in kinds]
+        for cut in ("mid_frame", "after_first_fragment", "mid_header"):
+            for kind_ in ("eof", "reset"):
+                yield {"outcomes": [dict(_out(kind_, 1), cut=cut), _out("server_close", 3)], "reconnect": S, "via": "arg", "on_reconnect": True,
+                       "dispatcher": item["disp"], "closer": None, "policy": {"kind": "coop", "p_call": 0.0}, "seed": 1}
         for sq in seqs:
             for onrec in (True, False):
                 sc = {"outcomes": [_out(x) for x in sq] + [_out("server_close", 2)], "reconnect": S, "via": "arg", "on_reconnect": onrec,
@@ -72,6 +76,9 @@ def gen(rng):
     n = rng.randrange(0, 6)
     kinds = [x for x in KINDS if x != "server_close" and not (disp == "rel" and x == "ping_timeout")]
     outs = [_out(rng.choice(kinds), rng.randrange(0, 4), rng.choice((S // 4, S, 3 * S))) for _ in range(n)]
+    for o in outs:
+        if o["kind"] in ("eof", "reset") and rng.random() < 0.4:
+            o["cut"] = rng.choice(("mid_frame", "after_first_fragment", "mid_header"))
     outs.append(_out("server_close", rng.randrange(0, 4), rng.choice((S, 4 * S))))
     sc = {"outcomes": outs, "reconnect": rng.choice(R_GRID), "via": rng.choice(("arg", "arg", "setReconnect")),
           "on_reconnect": rng.random() < 0.6, "dispatcher": disp, "closer": None, "seed": rng.randrange(1 << 30)}
@@ -85,6 +92,8 @@ def gen(rng):
         sc["closer"] = {"kind": "callback", "n": rng.randrange(1, 5)}
     sc["policy"] = rng.choice(({"kind": "coop", "p_call": 0.0}, {"kind": "coop", "p_call": 0.3},
                                {"kind": "prob", "p_line": 1 / 64, "p_call": 0.3}))
+    if rng.random() < 0.15:
+        sc["tls"] = True
     return sc
 
 
@@ -132,6 +141,16 @@ def run(sc, choices=None):
                 script.append({"t": (j + 1) * at // (nm + 1), "hex": R.encode_frame(1, 1, text.encode()).hex()})
             spec = {"script": script, "on_ping": {"mode": "pong"}, "on_close": {"mode": "reply"}}
             if kind in ("eof", "reset"):
+                cut = o.get("cut")
+                if cut == "mid_frame":
+                    # the connection is lost after the header and part of the payload of a frame have arrived
+                    script.append({"t": at, "hex": R.encode_frame(1, 1, b"this frame is cut off")[:9].hex()})
+                elif cut == "after_first_fragment":
+                    script.append({"t": at, "hex": R.encode_frame(0, 1, b"first fragment only").hex()})
+                elif cut == "mid_header":
+                    script.append({"t": at, "hex": "81"})
+                elif cut is not None:
+                    raise InvalidScenario("cut")
                 script.append({"t": at, "end": kind})
             elif kind == "ping_timeout":
                 spec["on_ping"] = {"mode": "never"}
@@ -152,7 +171,7 @@ def run(sc, choices=None):
             cbs["on_message"] = {"do": "close", "nth": int(closer["n"])}
         else:
             raise InvalidScenario("closer")
-    runopt = {"dispatcher": disp}
+    runopt = {"dispatcher": disp, "tls": bool(sc.get("tls"))}
     if sc.get("via") == "setReconnect":
         runopt["set_reconnect"] = rr
     else:
@@ -167,9 +186,11 @@ def run(sc, choices=None):
            "seed": sc.get("seed", 1), "time_cap_s": int(horizon / S) + 100, "step_cap": 1_500_000, "linger": rr + 8 * S}
     out = run_app(asc, choices)
     w = out["world"]
-    res.absorb(w)
+    res.absorb(w, exclude_kinds=("send", "recv", "deliver", "recv_call") if sc.get("tls") else ())
     run_ = out["runs"][0]
     log = w.k.log
+    if sc.get("tls"):
+        res.probes["tls_transport"] = 1
     ctxd = disp
     # ---------------------------------------------------------------- facts from the log
     connects = [e for e in log if e[3] == "connect"]  # (seq, t, tid, 'connect', fd, addr, port, outcome)
@@ -305,11 +326,13 @@ def run(sc, choices=None):
 
 
 def _fin(res, sc, outs, closer_phase):
-    res.sig = repr((tuple(o["kind"] for o in outs), sc["reconnect"], sc.get("dispatcher"), bool(sc.get("on_reconnect")),
+    res.sig = repr((tuple((o["kind"], o.get("cut")) for o in outs), sc["reconnect"], sc.get("dispatcher"), bool(sc.get("on_reconnect")),
                     (sc.get("closer") or {}).get("kind"), closer_phase, res.sched if res.switches else ""))
     res.nontrivial = len(outs) > 1
     for o in outs:
         res.probes["outcome_" + o["kind"]] = res.probes.get("outcome_" + o["kind"], 0) + 1
+        if o.get("cut"):
+            res.probes["loss_" + o["cut"]] = 1
     if closer_phase:
         res.probes["close_" + closer_phase] = 1
     if sc.get("dispatcher") == "rel":
